@@ -97,7 +97,7 @@ def run_tlc(family, module, cfg, *, workers=None, args=(), env=None, timeout=900
              "/opt/veriftools/tla/tla2tools.jar:/opt/veriftools/tla/CommunityModules-deps.jar",
              "tlc2.TLC"]
     cmd = java + ["-workers", w, "-metadir", os.path.join(d, "md-%d" % int(time.time() * 1000)),
-                  "-config", cfg] + list(args) + [module + ".tla"]
+                  "-config", cfg] + ([] if "-fp" in args else ["-fp", "0"]) + list(args) + [module + ".tla"]
     e = dict(os.environ)
     if env:
         e.update(env)
@@ -283,72 +283,132 @@ def load_graph(dot):
     return inits, adj, n_edges
 
 
-def tours(inits, adj, *, max_len=40, rng=None, max_tours=None, skip=lambda lab: False):
+def tours(inits, adj, *, max_len=40, rng=None, max_tours=None, skip=lambda lab: False, budget=400):
     """Transition tours: paths from an initial state that together take every
     edge of the graph at least once (edges for which skip(label) holds need not be
-    covered but may be used).  Greedy: follow uncovered edges, otherwise walk (BFS)
-    to the nearest state that still has one; restart when max_len is reached."""
+    covered but may be used).  A tour starts in an initial state and follows uncovered edges
+    greedily; when it is stuck it walks to the nearest state that still has one (searched in a
+    bounded neighbourhood) and, if there is none nearby and the tour is still empty, along a
+    shortest path to the next such state anywhere.  Every edge walked counts as covered.
+    Deterministic for a given rng seed."""
     rng = rng or random.Random(0)
     uncovered = {}
-    for s, es in adj.items():
+    for s, es in sorted(adj.items()):   # (sorted: the tours depend on the seed only, not on the order of the dump)
         u = [i for i, (lab, d) in enumerate(es) if not skip(lab)]
         if u:
             rng.shuffle(u)
             uncovered[s] = u
     total = sum(len(u) for u in uncovered.values())
-    out = []
-    covered = 0
-    # distance-to-uncovered via BFS from current node each time we get stuck
-    def bfs(src):
+    covered = [0]
+
+    def mark(x, i):
+        u = uncovered.get(x)
+        if u is not None and i in u:
+            u.remove(i)
+            covered[0] += 1
+            if not u:
+                del uncovered[x]
+
+    # shortest-path tree from the initial states
+    parent = {}
+    order = []
+    q = collections.deque()
+    for i in inits:
+        if i not in parent:
+            parent[i] = None
+            q.append(i)
+    while q:
+        x = q.popleft()
+        order.append(x)
+        for i, (lab, d) in enumerate(adj.get(x, ())):
+            if d not in parent:
+                parent[d] = (x, i)
+                q.append(d)
+    depth = {}
+    for x in order:
+        depth[x] = 0 if parent[x] is None else depth[parent[x][0]] + 1
+
+    def path_to(x):
+        p = []
+        while parent[x] is not None:
+            px, i = parent[x]
+            p.append((px, i))
+            x = px
+        p.reverse()
+        return x, p
+
+    def near(src, room):
+        """nearest state with an uncovered edge within `budget` expansions and `room` steps"""
+        if failed.get(src, -1) >= room:
+            return None                 # (the uncovered set only shrinks)
         prev = {src: None}
+        dist = {src: 0}
         q = collections.deque([src])
-        while q:
+        n = 0
+        while q and n < budget:
             x = q.popleft()
+            n += 1
             if x != src and x in uncovered:
                 path = []
                 while prev[x] is not None:
-                    px, lab = prev[x]
-                    path.append((lab, x))
+                    px, i = prev[x]
+                    path.append((px, i))
                     x = px
                 path.reverse()
                 return path
-            for lab, d in adj.get(x, ()):
+            if dist[x] >= room:
+                continue
+            for i, (lab, d) in enumerate(adj.get(x, ())):
                 if d not in prev:
-                    prev[d] = (x, lab)
+                    prev[d] = (x, i)
+                    dist[d] = dist[x] + 1
                     q.append(d)
+        failed[src] = max(room, failed.get(src, -1))
         return None
+
+    failed = {}
+    out = []
+    starts = [x for x in order if x in uncovered and depth[x] < max_len]
+    for x in list(uncovered):
+        if x not in depth or depth[x] >= max_len:
+            del uncovered[x]            # not reachable within max_len
+    si = 0
+    k = 0
     while uncovered:
-        progressed = False
-        for init in inits:
-            cur = init
-            path = []
-            took_new = False
-            while len(path) < max_len:
-                if cur in uncovered:
-                    u = uncovered[cur]
-                    i = u.pop()
-                    if not u:
-                        del uncovered[cur]
-                    lab, d = adj[cur][i]
-                    path.append(lab)
-                    cur = d
-                    covered += 1
-                    took_new = True
-                    continue
-                p = bfs(cur)
-                if p is None or len(path) + len(p) >= max_len:
+        init = inits[k % len(inits)]
+        k += 1
+        cur = init
+        path = []
+        before = covered[0]
+        while len(path) < max_len:
+            if cur in uncovered:
+                i = uncovered[cur][-1]
+                mark(cur, i)
+                lab, d = adj[cur][i]
+                path.append(lab)
+                cur = d
+                continue
+            p = near(cur, max_len - len(path) - 1)
+            if p is None and not path:
+                while si < len(starts) and starts[si] not in uncovered:
+                    si += 1
+                if si == len(starts):
                     break
-                for lab, d in p:
-                    path.append(lab)
-                    cur = d
-            if took_new:
-                out.append(path)
-                progressed = True
-            if max_tours and len(out) >= max_tours:
-                return out, covered, total
-        if not progressed:
-            break   # remaining uncovered edges are unreachable within max_len
-    return out, covered, total
+                cur, p = path_to(starts[si])
+            if p is None:
+                break
+            for x, i in p:
+                mark(x, i)
+                lab, d = adj[x][i]
+                path.append(lab)
+                cur = d
+        if covered[0] > before:
+            out.append(path)
+        elif si >= len(starts):
+            break
+        if max_tours and len(out) >= max_tours:
+            break
+    return out, covered[0], total
 
 
 # --------------------------------------------------------------------------
@@ -414,6 +474,8 @@ def classify_go_failure(out):
         return "stopped"
     if "panic:" not in out and "fatal error:" not in out:
         return "infra"
+    if re.search(r"panic: test timed out|panic: deadlock: |all goroutines are asleep", out):
+        return "infra"          # a hang is not attributed by the stack of whoever happens to be listed first
     tail = out[out.index("panic:") if "panic:" in out else out.index("fatal error:"):]
     frames = re.findall(r"^\t(\S+\.go):\d+", tail, re.M)
     for f in frames:
